@@ -425,6 +425,10 @@ namespace occa {
                          value.bytes);
           break;
         }
+        case occa::c::typeType::bool_: {
+          // occaBool keeps its value (0 or 1) in int8_; a bool kernel argument is one byte
+          return occa::kernelArg(value.value.int8_);
+        }
         case occa::c::typeType::int8_: {
           return occa::kernelArg(value.value.int8_);
         }
